@@ -202,8 +202,8 @@ class Report:
         t = self.hist.setdefault(table, {})
         t[key] = t.get(key, 0) + k
 
-    def skip(self, why: str) -> None:
-        self.skipped[why] = self.skipped.get(why, 0) + 1
+    def skip(self, why: str, n: int = 1) -> None:
+        self.skipped[why] = self.skipped.get(why, 0) + n
 
     def case(self, key, nontrivial: bool = True) -> None:
         self.evaluations += 1
